@@ -6,6 +6,7 @@ import someip.header as H
 import someip.sd as SD
 import someip.service as S
 from contracts import looplib as LL
+from contracts.common import check_frame
 from contracts import spec_announce as SA
 from contracts import spec_config as SCFG
 from contracts import spec_sd as SS
@@ -66,6 +67,10 @@ class IWorld:
             self.log.append(("send", entry, remote))
 
         self.queued = vc.stub(self.ann, "queue_send", on_queue)
+        self.heap = vc.snapshot(prot=self.prot, inst=self.inst)
+
+    def check_frame(self, label, allowed=()):
+        check_frame(self.vc, self.heap, label, tuple(allowed))
 
 
 def _while_head(vc, v, entering):
@@ -94,7 +99,10 @@ def ob_offer_task(vc):
         if not restarted:
             inst._task = None
 
+    w.heap = vc.snapshot(prot=w.prot, inst=inst)
     o = vc.outcome(vc.drive, vc.body(SD.ServiceInstance._offer_task)(inst), w.log, None, True, stopped)
+    # the task changes the readiness flag and nothing else (inst._task: stop(), modelled above)
+    w.check_frame("offer_task", ("inst._can_answer_offers", "inst._task"))
     offer = w.service.create_offer_entry(t.ANNOUNCE_TTL)
     stop_offer = w.service.create_offer_entry(0)
     log = w.log
@@ -160,6 +168,7 @@ def ob_instance_start_stop(vc):
     vc.check(inst._task is not None and not inst._can_answer_offers, "instance.start.task_armed_not_ready")
     vc.check_eq(len(w.loop.tasks), n_tasks + 1, "instance.start.one_task")
     vc.check_eq(w.log, [], "instance.start.sends_nothing_itself")
+    w.check_frame("instance.start", ("inst._can_answer_offers", "inst._task"))
     task = inst._task
     inst._can_answer_offers = vc.bool("ready_when_stopped")
     if not w.cyclic:
@@ -175,6 +184,7 @@ def ob_instance_start_stop(vc):
     else:
         vc.cover("non-cyclic")
         vc.check_eq(w.log, [("send", w.service.create_offer_entry(0), None)], "instance.stop.non_cyclic.exactly_one_stop_offer")
+    w.check_frame("instance.stop", ("inst._can_answer_offers", "inst._task", "inst.subscriptions.store*"))
     # restart works
     o = vc.outcome(inst.start)
     vc.check(o.kind == "ret" and inst._task is not None, "instance.restart_after_stop")
@@ -188,6 +198,7 @@ def ob_announcer_lifecycle(vc):
     ann, inst = w.ann, w.inst
     started = vc.bool("announcer_started")
     ann.started = started
+    w.heap = vc.snapshot(prot=w.prot, inst=inst)
     vc.body(SD.ServiceAnnouncer.announce_service)(ann, inst)
     vc.check(inst in ann.announcing_services, "announce_service.registered")
     vc.check_eq(inst._task is not None, started, "announce_service.runs_iff_announcer_started")
@@ -201,6 +212,7 @@ def ob_announcer_lifecycle(vc):
     o3 = vc.outcome(vc.body(SD.ServiceAnnouncer.connection_lost), ann, None)
     vc.check(o3.kind == "ret", "announcer.connection_lost_after_stop_succeeds")
     vc.check(not inst._can_answer_offers, "announcer.stop.instances_not_ready")
+    w.check_frame("announcer.lifecycle", ("inst._can_answer_offers", "inst._task", "inst.subscriptions.store*", "prot.announcer.started", "prot.announcer.announcing_services"))
 
 
 def ob_stop_announce_service(vc):
@@ -208,9 +220,11 @@ def ob_stop_announce_service(vc):
     ann, inst = w.ann, w.inst
     ann.started = True
     ann.announce_service(inst)
+    w.heap = vc.snapshot(prot=w.prot, inst=inst)
     vc.body(SD.ServiceAnnouncer.stop_announce_service)(ann, inst)
     vc.check(inst not in ann.announcing_services, "stop_announce_service.removed")
     vc.check(inst._task is None and not inst._can_answer_offers, "stop_announce_service.instance_stopped")
+    w.check_frame("stop_announce_service", ("inst._can_answer_offers", "inst._task", "inst.subscriptions.store*", "prot.announcer.announcing_services"))
 
 
 class _Svc(S.SimpleService):
